@@ -224,14 +224,16 @@ func (a Float) M__itruediv__(other Object) (Object, error) {
 
 func (a Float) M__floordiv__(other Object) (Object, error) {
 	if b, ok := convertToFloat(other); ok {
-		return Float(math.Floor(float64(a / b))), nil
+		q, _, err := floatDivMod(a, b)
+		return q, err
 	}
 	return NotImplemented, nil
 }
 
 func (a Float) M__rfloordiv__(other Object) (Object, error) {
 	if b, ok := convertToFloat(other); ok {
-		return Float(math.Floor(float64(b / a))), nil
+		q, _, err := floatDivMod(b, a)
+		return q, err
 	}
 	return NotImplemented, nil
 }
@@ -241,13 +243,41 @@ func (a Float) M__ifloordiv__(other Object) (Object, error) {
 }
 
 // Does DivMod of two floating point numbers
+//
+// This is float_divmod from CPython: the remainder is the exact
+// fmod adjusted to have the sign of the divisor
 func floatDivMod(a, b Float) (Float, Float, error) {
-	if b == 0 {
+	vx, wx := float64(a), float64(b)
+	if wx == 0 {
 		return 0, 0, floatDivisionByZero
 	}
-	q := Float(math.Floor(float64(a / b)))
-	r := a - q*b
-	return q, Float(r), nil
+	mod := math.Mod(vx, wx)
+	// Mod is exact, so vx-mod is mathematically an exact multiple
+	// of wx, but the floating point division may be slightly off
+	// an integral value
+	div := (vx - mod) / wx
+	if mod != 0 {
+		// ensure the remainder has the same sign as the denominator
+		if (wx < 0) != (mod < 0) {
+			mod += wx
+			div -= 1
+		}
+	} else {
+		// a zero remainder has the same sign as the denominator
+		mod = math.Copysign(0, wx)
+	}
+	var floordiv float64
+	if div != 0 {
+		// snap quotient to nearest integral value
+		floordiv = math.Floor(div)
+		if div-floordiv > 0.5 {
+			floordiv += 1
+		}
+	} else {
+		// div is zero - get the same sign as the true quotient
+		floordiv = math.Copysign(0, vx/wx)
+	}
+	return Float(floordiv), Float(mod), nil
 }
 
 func (a Float) M__mod__(other Object) (Object, error) {
